@@ -11,7 +11,7 @@
     the note's value, account and scope of key [k], nullifier [nf_of p k n (base + i)], change flag
     "account of [k] is among [accts]", and [o]'s ephemeral key and commitment. *)
 From V.Lib Require Import Base.
-From V.C05 Require Import Model Spec Corr Wf Proofs Eqb Bridge Batched.
+From V.C05 Require Import Model Spec Corr Wf Proofs Eqb Bridge Batched Batch.
 From Coq Require Import Permutation.
 Local Open Scope N_scope.
 
@@ -217,6 +217,53 @@ Theorem C05_prev_hash_length_fixed : forall dec nf_of,
              (Blk 10 (F 32 true 1) (F 31 true 2) 0 None [] None)
   = Err (PrevHashMismatch 10).
 Proof. exact prev_hash_fixed. Qed.
+
+(** ---- the in-memory batch (Batch.v): scan_batch = fold of scan_block with update_with ------ *)
+(** Tracked nullifiers after a block, per pool: the survivors (tracked before and not revealed by
+    a reported spend of that pool) and the nullifiers of the wallet outputs found in THAT pool. *)
+Theorem C05_tracked_after_iff : forall p nfs txs e,
+  In e (tracked p (update_with nfs txs))
+  <-> (In e (tracked p nfs) /\ spent_in p txs (snd e) = false) \/ In e (new_entries p txs).
+Proof. exact tracked_after_iff. Qed.
+Theorem C05_tracked_after_exact : forall p nfs txs,
+  tracked p (update_with nfs txs) = spec_tracked_after p nfs txs.
+Proof. exact tracked_update. Qed.
+(** Every block of an accepted batch is the scan_block result under the metadata and the tracked
+    set accumulated over the blocks before it. *)
+Theorem C05_scan_batch_split : forall dec nf_of c keys bpre prior nfs rs b bpost,
+  scan_batch dec nf_of c prior keys nfs (bpre ++ b :: bpost) = Ok rs ->
+  exists rpre r rpost,
+    rs = rpre ++ r :: rpost /\ length rpre = length bpre
+    /\ scan_batch dec nf_of c prior keys nfs bpre = Ok rpre
+    /\ scan_block dec nf_of c (prior_after prior rpre) keys (nfs_after nfs rpre) b = Ok r.
+Proof. exact scan_batch_split. Qed.
+(** A rejected block aborts the batch; nothing is returned (never partially applied). *)
+Theorem C05_scan_batch_rejects : forall dec nf_of c keys bpre prior nfs rpre b bpost e,
+  scan_batch dec nf_of c prior keys nfs bpre = Ok rpre ->
+  scan_block dec nf_of c (prior_after prior rpre) keys (nfs_after nfs rpre) b = Err e ->
+  scan_batch dec nf_of c prior keys nfs (bpre ++ b :: bpost) = Err e.
+Proof. exact scan_batch_rejects. Qed.
+(** Spends within the batch: a wallet output of pool p found in block i (nullifier nf), not spent
+    in the blocks between, and revealed by the action at index |n1| of transaction t of a later
+    block j of the same batch, is reported spent there by the first tracked account, and nf is
+    not left among that transaction's unlinked nullifiers. *)
+Theorem C05_batch_spend_reported : forall dec nf_of c prior keys nfs0 bpre bj bpost rs r0s ri mids rj rpost
+    p wt w nf pre t post n1 f n2,
+  scan_batch dec nf_of c prior keys nfs0 (bpre ++ bj :: bpost) = Ok rs ->
+  rs = (r0s ++ ri :: mids) ++ rj :: rpost -> length (r0s ++ ri :: mids) = length bpre ->
+  In wt (s_txs ri) -> In w (wt_out p wt) -> w_nf w = Some nf ->
+  (forall m, In m mids -> spent_in p (s_txs m) nf = false) ->
+  b_vtx bj = pre ++ t :: post -> spend_flds p t = n1 ++ f :: n2 -> fid f = nf ->
+  exists a wtj,
+    first_match nf (tracked p (nfs_after nfs0 (r0s ++ ri :: mids))) = Some a
+    /\ In wtj (s_txs rj) /\ wt_txid wtj = fid (x_txid t) /\ wt_index wtj = x_index t
+    /\ In (len n1, nf, a) (wt_sp p wtj)
+    /\ ~ In nf (filter (fun x => match first_match x (tracked p (nfs_after nfs0 (r0s ++ ri :: mids))) with
+                                  | Some _ => false | None => true end)
+                       (map fid (spend_flds p t))).
+Proof. exact batch_spend_reported. Qed.
+Theorem C05_nfset_eqb_sound : forall a b, nfset_eqb a b = true <-> a = b.
+Proof. exact nfset_eqb_spec. Qed.
 
 (** Non-vacuity: a connected block with one Sapling output for key (account 7, external) is
     accepted, and the note is reported at position 10 = prior size with value 5. *)
